@@ -175,6 +175,7 @@ func extractMuxFacts(repo, root string) error {
 	prt := f.parse(repo, "protocol/roundtrip.go")
 	sa := f.parse(repo, "protocol/saslauthenticate/saslauthenticate.go")
 	f.parse(repo, "dialer.go")
+	f.parse(repo, "batch.go")
 
 	// ---- doRequest: the id is taken and the request written inside ONE wlock critical section
 	if fd := findFunc(conn, "Conn", "doRequest"); fd != nil {
